@@ -327,7 +327,8 @@ private theorem exNoFlt {st : State} (h : st.schema = exSchema) : ∀ ix ∈ st.
   intro ix hix hk
   have : (ix.path, ix.kind) ∈ st.schema := List.mem_map.2 ⟨ix, hix, rfl⟩
   rw [h, hk] at this
-  simp [exSchema] at this
+  change _ ∈ [((["n"] : List String), C02.Kind.int), (["nest", "s"], .str false)] at this
+  simp at this
 
 /-- the hypothesis `HistOK` of `Compose_inv_history` / `Compose_filter_exact` holds for this history … -/
 example : HistOK C02.exLower exConv exCfg exInit exHist := by
